@@ -135,6 +135,25 @@ static void gen_c03(const std::string& tier, std::vector<Case>& cases) {
             for (auto& d : devs) { Case c; c.fund = S.fund; c.tx = d.second; c.select = -1; c.label = base + " " + d.first; c.klass = "large:" + klass_of(d.first); cases.push_back(c); }
         }
     }
+    // signature-free witness scripts / leaves: small witness items whose hex spelling is all digits, and a script of the P2SH shape
+    // (P2SH evaluation applies to a scriptPubKey only, never to a witness script or a tapscript leaf)
+    for (std::string type : {"p2wsh-checksig", "p2tr-script"}) for (std::string kind : {"data", "p2sh-shaped"}) for (bool annex : {false, true}) {
+        if (annex && type != "p2tr-script") continue;
+        gen::Shape sh = shape_of(type, gen::is_taproot_type(type) ? 0 : 1, 1); sh.leaf_kind = kind;
+        gen::Spend S = gen::make_spend(type, sh, 1, 1, annex);
+        std::string base = type + " " + kind + " script" + (annex ? " annex" : "");
+        { Case c; c.fund = S.fund; c.tx = S.tx; c.label = base + " valid"; c.klass = "valid-signature-free-" + kind; cases.push_back(c); }
+        std::vector<std::pair<std::string, Tx>> devs; deviations(S, false, devs);
+        for (auto& d : devs) { Case c; c.fund = S.fund; c.tx = d.second; c.select = -1; c.label = base + " " + d.first; c.klass = "signature-free-" + kind + ":" + klass_of(d.first); cases.push_back(c); }
+    }
+    // tapscript leaves that check their signature several times: the BIP342 budget is 50 + the size of the WHOLE witness (script and
+    // control block included), so the same leaf is valid or invalid depending on the path length and the annex
+    for (int checks : {2, 3, 4, 5, 6}) for (int pl : {0, 1, 2, 5}) for (bool annex : {false, true}) {
+        if (!th && (pl == 5 || (annex && checks > 4))) continue;
+        gen::Shape sh = shape_of("p2tr-script", 0, 1); sh.tap_checks = checks;
+        gen::Spend S = gen::make_spend("p2tr-script", sh, 1, pl, annex);
+        Case c; c.fund = S.fund; c.tx = S.tx; c.label = "p2tr-script " + std::to_string(checks) + " checks of one signature path=" + std::to_string(pl) + (annex ? " annex" : ""); c.klass = "tapscript-repeated-checks"; cases.push_back(c);
+    }
     // the six real-chain pairs
     for (auto& v : CHAIN_VECTORS) { Case c; parse_tx(unhex(v.txin), c.fund); parse_tx(unhex(v.tx), c.tx); c.label = std::string("chain:") + v.name; c.klass = "chain"; cases.push_back(c); }
     // funding tx not referenced at all
